@@ -2,11 +2,14 @@
 """quick look: run checks on batch-3 patches straight from /tmp/seed3 (scratch copies): quick_seed3.py C08 C09 ... [--all]"""
 import os, shutil, subprocess, sys, tempfile
 from concurrent.futures import ThreadPoolExecutor
-ids = [a for a in sys.argv[1:] if not a.startswith("-")]
+BASE = "/tmp/seed3"
+if "--base" in sys.argv:
+    BASE = sys.argv[sys.argv.index("--base") + 1]
+ids = [a for a in sys.argv[1:] if not a.startswith("-") and not a.startswith("/")]
 allc = "--all" in sys.argv
 def one(spec):
     ID, K = spec
-    patch = f"/tmp/seed3/{ID}/_out/change{K}/patch.diff"
+    patch = f"{BASE}/{ID}/_out/change{K}/patch.diff"
     if not os.path.exists(patch):
         return f"{ID}:{K} no patch"
     tmp = tempfile.mkdtemp(prefix=f"q3-{ID}-{K}-"); repo = tmp + "/repo"
@@ -21,7 +24,7 @@ def one(spec):
             if p.returncode != 0:
                 line = next((l.strip()[:260] for l in p.stdout.splitlines() if l.strip().startswith("finding:") or l.startswith("ANALYSIS-ERROR")), "")
                 out.append(f"{c}={p.returncode} {line}")
-        title = open(f"/tmp/seed3/{ID}/_out/change{K}/notes.md").readline().strip()[:100]
+        title = open(f"{BASE}/{ID}/_out/change{K}/notes.md").readline().strip()[:100]
         return f"{ID}:{K} [{title}] -> " + ("; ".join(out) or "MISSED")
     finally:
         shutil.rmtree(tmp, ignore_errors=True)
